@@ -250,6 +250,32 @@ func (x *Exec) modOfContract(m *ModSet, ci *calleeInfo, c *ssa.CallCommon) {
 	}
 }
 
+// fieldofFamilies: designator fieldof(pkg.Type, Field) = that field of every object of the struct type.
+func (x *Exec) fieldofFamilies(d string) []Family {
+	if !strings.HasPrefix(d, "fieldof(") || !strings.HasSuffix(d, ")") {
+		return nil
+	}
+	parts := strings.SplitN(d[8:len(d)-1], ",", 2)
+	if len(parts) != 2 {
+		panic("modifies: fieldof(pkg.Type, Field) expected: " + d)
+	}
+	t := x.typeByName(strings.TrimSpace(parts[0]))
+	stT, ok := t.Underlying().(*types.Struct)
+	if !ok {
+		panic("modifies: fieldof of a non-struct type: " + d)
+	}
+	idx, _ := findField(stT, strings.TrimSpace(parts[1]))
+	if idx < 0 {
+		panic("modifies: no such field: " + d)
+	}
+	off, n, _ := fieldRange(t, idx)
+	out := append([]Family{}, familiesOf(RStruct, t)[off:off+n]...)
+	if dualTypes[typeName(t)] {
+		out = append(out, familiesOf(RElem, t)[off:off+n]...)
+	}
+	return out
+}
+
 func (x *Exec) designatorFamilies(d string, names []string, typs []types.Type) (fams []Family, big bool) {
 	if strings.HasPrefix(d, "pointee(") {
 		// resolved per call site in modOfContract
@@ -269,6 +295,9 @@ func (x *Exec) designatorFamilies(d string, names []string, typs []types.Type) (
 			return familiesOf(RStruct, t), false
 		}
 		return familiesOf(RBox, t), false
+	}
+	if fs := x.fieldofFamilies(d); fs != nil {
+		return fs, false
 	}
 	switch {
 	case strings.HasPrefix(d, "boxof(") && strings.HasSuffix(d, ")"):
@@ -635,6 +664,14 @@ func (x *Exec) havocDesignator(env *Env, d string, st *State, reach *Term, c *ss
 		t := x.typeByName(m[2])
 		ptr := &Sym{T: types.NewPointer(t), L: []*Term{p.term()}}
 		x.storePtr(st, ptr, t, x.freshSym(t, "mod", st.ctr, reach))
+		return
+	}
+	if fs := x.fieldofFamilies(d); fs != nil {
+		for _, f := range fs {
+			st.fams[f.Name] = f
+			st.heap[f.Name] = x.vc.fresh("H."+f.Name, f.Sort)
+			x.hp.closedness(st.heap[f.Name], f, st.ctr.S)
+		}
 		return
 	}
 	switch {
